@@ -40,6 +40,12 @@ pub enum Policy {
     /// again until the waking thread has finished its current operation. Aims schedules at the
     /// few-instruction windows between a read and the publication that protects it.
     Stall { victim: u8, park_role: Role, park_nth: u8, wake_role: Role, wake_nth: u8, run: u8 },
+    /// ABA adversary: thread `victim` is parked right *before* its `park_nth`-th compare-exchange
+    /// on a location of role `park_role`; it is released (and runs `run` steps at once) as soon as
+    /// that very location, after having held something else, holds the value the victim expects
+    /// again - the schedule under which a stale compare-exchange succeeds. If that never happens
+    /// the victim resumes when nobody else can run.
+    AbaStall { victim: u8, park_role: Role, park_nth: u8, run: u8 },
 }
 
 #[derive(Clone, Debug, PartialEq, Eq, Serialize, Deserialize)]
@@ -241,6 +247,10 @@ pub struct Stats {
     pub cas_interfered: usize,
     pub writes_overlapped: usize,
     pub gen_wrapped: usize,
+    #[serde(default)]
+    pub gen_wrapped_nested: usize,
+    #[serde(default)]
+    pub gen_reused: usize,
     pub max_load_steps: usize,
     pub max_solo_steps: usize,
     pub solo_ops: usize,
@@ -300,6 +310,7 @@ pub struct State {
     pub nnodes: usize,
     /// node address -> owning thread (from the role-labelled trace)
     pub owner: HashMap<usize, usize>,
+    pub gen_seen: std::collections::HashSet<(usize, usize, usize)>,
     // policies
     pub prio: Vec<i64>,
     pub change_pts: Vec<usize>,
@@ -320,6 +331,9 @@ pub struct State {
     pub stall_waker: usize,
     pub stall_waker_ops: usize,
     pub parked: usize,
+    pub aba_addr: usize,
+    pub aba_expected: usize,
+    pub aba_changed: bool,
     /// logical clock: ticks on every step and on every stamp (exact real-time order of events)
     pub clock: usize,
 }
@@ -359,6 +373,7 @@ pub fn rt() -> &'static Rt {
             nslots: 9,
             nnodes: 0,
             owner: HashMap::new(),
+            gen_seen: std::collections::HashSet::new(),
             prio: Vec::new(),
             change_pts: Vec::new(),
             burst_w: NONE_T,
@@ -376,6 +391,9 @@ pub fn rt() -> &'static Rt {
             stall_waker: NONE_T,
             stall_waker_ops: 0,
             parked: NONE_T,
+            aba_addr: 0,
+            aba_expected: 0,
+            aba_changed: false,
             clock: 0,
         }),
         cv: (0..MAXT).map(|_| Condvar::new()).collect(),
@@ -465,6 +483,7 @@ impl State {
         self.roles_dirty = false;
         self.nnodes = 0;
         self.owner.clear();
+        self.gen_seen.clear();
         self.burst_w = NONE_T;
         self.burst_start = 0;
         self.freeze_state = 0;
@@ -476,6 +495,9 @@ impl State {
         self.stall_waker = NONE_T;
         self.stall_waker_ops = 0;
         self.parked = NONE_T;
+        self.aba_addr = 0;
+        self.aba_expected = 0;
+        self.aba_changed = false;
         self.clock = 0;
         // PCT priorities / change points
         self.prio.clear();
@@ -1054,7 +1076,7 @@ impl State {
                     None => bpos,
                 }
             }
-            Policy::Stall { victim, .. } => {
+            Policy::Stall { victim, .. } | Policy::AbaStall { victim, .. } => {
                 let v = victim as usize + 1;
                 // during the burst the victim runs; otherwise a mild random schedule
                 if self.stall_phase == 2 && en.contains(&v) {
@@ -1310,6 +1332,13 @@ fn classify(st: &mut State, me: usize, a: &Access, role: Role, node: usize, res:
                 st.th[me].op_fallback = true;
                 if a.a == GEN_TAG {
                     st.stats.gen_wrapped += 1;
+                    if opk == OpKind::Write {
+                        st.stats.gen_wrapped_nested += 1;
+                    }
+                }
+                // the same generation published twice on one node by one owner
+                if !st.gen_seen.insert((node, me, a.a)) {
+                    st.stats.gen_reused += 1;
                 }
                 match st.owner.get(&node) {
                     Some(&o) if o == me => {}
@@ -1494,6 +1523,24 @@ pub fn hook(a: &Access) -> Option<(usize, bool, usize)> {
         rn = st.roles.get(&a.addr).copied();
     }
     let (role, node) = rn.unwrap_or((Role::Unknown, 0));
+    if let Policy::AbaStall { victim, park_role, park_nth, .. } = st.spec.policy.clone() {
+        let v = victim as usize + 1;
+        if st.stall_phase == 0 && me == v && role == park_role && matches!(a.op, Op::Cas | Op::CasWeak) {
+            st.stall_count += 1;
+            if st.stall_count >= park_nth.max(1) as usize {
+                // park before the exchange is performed
+                st.stall_phase = 1;
+                st.stall_count = 0;
+                st.parked = v;
+                st.aba_addr = a.addr;
+                st.aba_expected = a.a;
+                st.aba_changed = false;
+                st.stats.stall_parked += 1;
+                let st2 = sched(r, st, me);
+                st = check_abort(st2)?;
+            }
+        }
+    }
     let res = st.apply(me, a);
     if st.trace_on {
         let s = format!(
@@ -1549,6 +1596,29 @@ pub fn hook(a: &Access) -> Option<(usize, bool, usize)> {
                 if w == NONE_T || st.th[w].st != TS::Run || st.th[w].ops_done > st.stall_waker_ops {
                     st.stall_phase = 4;
                     st.parked = NONE_T;
+                }
+            }
+            _ => {}
+        }
+    }
+    if let Policy::AbaStall { victim, run, .. } = st.spec.policy.clone() {
+        let v = victim as usize + 1;
+        match st.stall_phase {
+            1 if me != v && a.addr == st.aba_addr => {
+                if res.2 != st.aba_expected {
+                    st.aba_changed = true;
+                } else if st.aba_changed {
+                    // A ... B ... A: the stale expectation holds again
+                    st.stall_phase = 2;
+                    st.parked = NONE_T;
+                    st.stall_burst = run.max(1) as usize;
+                    st.stats.stall_woken += 1;
+                }
+            }
+            2 if me == v => {
+                st.stall_burst -= 1;
+                if st.stall_burst == 0 {
+                    st.stall_phase = 4;
                 }
             }
             _ => {}
@@ -1633,6 +1703,7 @@ pub fn yield_point() {
 }
 
 pub fn op_begin(kind: OpKind, cont: usize, warmed: bool) {
+    crate::varc::ty_enter_addr(cont);
     with_state(|st, me| {
         let th = &mut st.th[me];
         th.op = kind;
@@ -1657,6 +1728,7 @@ pub struct OpInfo {
 }
 
 pub fn op_end() -> OpInfo {
+    crate::varc::ty_leave();
     with_state(|st, me| {
         let kind = st.th[me].op;
         let s0 = st.th[me].op_step0;
@@ -1835,6 +1907,7 @@ fn wake_waiters(st: &mut State) {
 
 /// Entry of a vthread: registers, waits for the token.
 pub fn vthread_enter(id: usize) {
+    crate::varc::ty_reset();
     SENT.with(|_| ());
     // Make sure the crate's own thread-local exists (without a node) and is registered *after* the
     // sentinel, so that it is destroyed before it. A thread whose first use of the crate happened
